@@ -26,8 +26,8 @@ prop("C01",
      rule=("cases = generated ADFs (11 structured families + random, hostile labels, random fact order/layout); "
            "non-trivial = grounded needs >=2 propagation rounds or mixes decided and undecided statements, or is a "
            "large (30-60 statements) instance; distinct by structure hash of the conditions"),
-     quick=dict(cases=1500, args={}),
-     thorough=dict(cases=15000, args={"nmax": 9, "large": 150}),
+     quick=dict(cases=4000, args={"large": 20}),
+     thorough=dict(cases=30000, args={"nmax": 9, "large": 200}),
      )
 
 prop("C02",
@@ -39,8 +39,8 @@ prop("C02",
      level_note=ORACLE_NOTE,
      rule=("cases = generated ADFs as in C01 (n<=6 quick, <=8 thorough); non-trivial = ADF has >=2 complete models; "
            "distinct by structure hash"),
-     quick=dict(cases=1500, args={}),
-     thorough=dict(cases=10000, args={"nmax": 8}),
+     quick=dict(cases=3000, args={}),
+     thorough=dict(cases=15000, args={"nmax": 8}),
      )
 
 prop("C03",
@@ -52,8 +52,8 @@ prop("C03",
      level_note=ORACLE_NOTE,
      rule=("cases = generated ADFs as in C01; non-trivial = ADF has a two-valued model that is not stable, or >=2 "
            "stable models; distinct by structure hash"),
-     quick=dict(cases=1200, args={}),
-     thorough=dict(cases=8000, args={"nmax": 8}),
+     quick=dict(cases=2500, args={}),
+     thorough=dict(cases=12000, args={"nmax": 8}),
      )
 
 prop("C04",
@@ -65,8 +65,8 @@ prop("C04",
      level_note=ORACLE_NOTE,
      rule=("cases = generated ADFs as in C01 plus fixed regression witnesses; non-trivial = the search made >=2 "
            "branching decisions and skipped >=1 inconsistent cube that was not the last cube; distinct by structure hash"),
-     quick=dict(cases=2500, args={}),
-     thorough=dict(cases=15000, args={"nmax": 8}),
+     quick=dict(cases=5000, args={}),
+     thorough=dict(cases=40000, args={"nmax": 8}),
      )
 
 prop("C05",
@@ -81,8 +81,8 @@ prop("C05",
      level_note=ORACLE_NOTE + " Termination is restated as bounded progress in loop iterations.",
      rule=("cases = generated ADFs (n<=5 quick, <=7 thorough) x 8 heuristics x modes x back-ends; non-trivial = some "
            "search on the ADF backtracked, learned >=1 nogood and ran >=3 loop iterations; distinct by structure hash"),
-     quick=dict(cases=400, args={}),
-     thorough=dict(cases=3000, args={"nmax": 7}),
+     quick=dict(cases=800, args={}),
+     thorough=dict(cases=5000, args={"nmax": 7}),
      )
 
 prop("C06",
@@ -97,8 +97,8 @@ prop("C06",
      level_note=ORACLE_NOTE + " Truth tables bound the store to <=11 variables.",
      rule=("cases = operation histories (10-120 operations, 1-11 variables); non-trivial = history reached >=8 nodes and "
            ">=6 distinct functions; distinct by hash of the operation transcript"),
-     quick=dict(cases=400, args={}),
-     thorough=dict(cases=5000, args={}),
+     quick=dict(cases=1000, args={}),
+     thorough=dict(cases=8000, args={}),
      )
 
 prop("C07",
@@ -111,8 +111,8 @@ prop("C07",
                  "random pairs and all restrictions are asked again on warm memo tables."),
      level_note=ORACLE_NOTE,
      rule=("cases = operation histories as in C06 plus a re-query phase; non-trivial as in C06; distinct by transcript hash"),
-     quick=dict(cases=400, args={}),
-     thorough=dict(cases=5000, args={}),
+     quick=dict(cases=1000, args={}),
+     thorough=dict(cases=8000, args={}),
      )
 
 prop("C13",
@@ -126,8 +126,8 @@ prop("C13",
      level_note=ORACLE_NOTE + " Diagram depth < 60 (counts are machine words).",
      rule=("cases = store histories; every distinct handle of a history is queried; non-trivial as in C06; "
            "distinct by transcript hash"),
-     quick=dict(cases=150, args={}),
-     thorough=dict(cases=2500, args={}),
+     quick=dict(cases=400, args={}),
+     thorough=dict(cases=4000, args={}),
      )
 
 prop("C18",
@@ -141,7 +141,7 @@ prop("C18",
      level_note=ORACLE_NOTE,
      rule=("cases = (add sequence, interpretations) pairs; non-trivial = >=2 nogoods with one contained in another; "
            "distinct by hash of the add sequence"),
-     quick=dict(cases=3000, args={}),
+     quick=dict(cases=6000, args={}),
      thorough=dict(cases=40000, args={}),
      )
 
@@ -157,8 +157,8 @@ prop("C19",
      level_note=ORACLE_NOTE + " A receiver can only observe the channel, so cutting after every send is exhaustive for what it can see.",
      rule=("cases = (producer program, poll schedule) runs; non-trivial = some poll observed a proper prefix of the final "
            "table; distinct by program hash; evidence also counts distinct cut vectors"),
-     quick=dict(cases=25, args={}),
-     thorough=dict(cases=400, args={}),
+     quick=dict(cases=120, args={}),
+     thorough=dict(cases=1200, args={"threaded": 400}),
      )
 
 prop("C20",
@@ -170,8 +170,8 @@ prop("C20",
                  "preserved, None forever after the end."),
      level_note=ORACLE_NOTE,
      rule=("cases = interpretation vectors; non-trivial = >=2 undecided positions; distinct by pattern"),
-     quick=dict(cases=40, args={}),
-     thorough=dict(cases=600, args={}),
+     quick=dict(cases=100, args={}),
+     thorough=dict(cases=1500, args={}),
      exhaustive_key="exhaustive_patterns",
      exhaustive_scope="all vectors over {T,F,u} of length 0..7",
      )
@@ -189,8 +189,8 @@ prop("C08",
      rule=("cases = generated positive files, each followed by ~13 negatives derived from it; non-trivial = positive using "
            ">=3 connective kinds and >=1 special label, or a rejected negative that differs from a valid file by one edit; "
            "distinct by text hash"),
-     quick=dict(cases=400, args={}),
-     thorough=dict(cases=6000, args={}),
+     quick=dict(cases=1000, args={}),
+     thorough=dict(cases=10000, args={}),
      )
 
 prop("C09",
@@ -204,8 +204,8 @@ prop("C09",
      level_note=ORACLE_NOTE,
      rule=("cases = generated ADFs (small: all assignments; large: sampled); non-trivial = >=2 binary connective kinds or a "
            "large instance; distinct by structure hash"),
-     quick=dict(cases=300, args={}),
-     thorough=dict(cases=4000, args={"large": 60}),
+     quick=dict(cases=800, args={"large": 8}),
+     thorough=dict(cases=6000, args={"large": 80}),
      )
 
 prop("C10",
@@ -220,8 +220,8 @@ prop("C10",
      level_note=ORACLE_NOTE,
      rule=("cases = base ADFs with 3-5 variants each; non-trivial = >=3 variants with pairwise different variable orders "
            "and >=2 complete models, or a large instance; distinct by structure hash"),
-     quick=dict(cases=120, args={}),
-     thorough=dict(cases=1500, args={"large": 40}),
+     quick=dict(cases=250, args={"large": 4}),
+     thorough=dict(cases=2500, args={"large": 50}),
      )
 
 prop("C11",
@@ -235,8 +235,8 @@ prop("C11",
      level_note=ORACLE_NOTE,
      rule=("cases = (ADF, call sequence); non-trivial = node table at least doubled and >=3 different semantics were "
            "interleaved; distinct by hash of ADF structure and call sequence"),
-     quick=dict(cases=250, args={}),
-     thorough=dict(cases=3000, args={}),
+     quick=dict(cases=600, args={}),
+     thorough=dict(cases=5000, args={}),
      )
 
 prop("C14",
@@ -248,8 +248,8 @@ prop("C14",
                  "copies pass the audit, and the copies must answer every later call like the original and the oracle."),
      level_note=ORACLE_NOTE + " CLI export/import legs are part of the CLI checks.",
      rule=("cases = (ADF, call sequence, export point); non-trivial as in C11; distinct by hash of structure and sequence"),
-     quick=dict(cases=250, args={}),
-     thorough=dict(cases=3000, args={}),
+     quick=dict(cases=600, args={}),
+     thorough=dict(cases=5000, args={}),
      )
 
 prop("C12",
@@ -281,8 +281,8 @@ prop("C15",
      level_note=ORACLE_NOTE + " Alphanumeric statement order is taken from the library's own sort (C10 covers order independence).",
      rule=("cases = generated files, 3 invocations (one per library mode) plus malformed variants each; non-trivial = "
            "invocation with >=2 semantics flags printing >=2 lines, or a rejected malformed file; distinct by structure/text hash"),
-     quick=dict(cases=120),
-     thorough=dict(cases=1500, valgrind_cases=12),
+     quick=dict(cases=200),
+     thorough=dict(cases=2000, valgrind_cases=12),
      )
 
 WEB_NOTE = ("Trusted base: the in-process MongoDB wire-protocol stub and HTTP client of /verif/harness/websim, the "
